@@ -81,20 +81,41 @@ def _tick_uid(ev_json):
         return None
 
 
+def _is_step_failed_for(ev, step_name, uid_in):
+    try:
+        if not str(ev.get("qualified_name", "")).endswith("StepFailedEvent"):
+            return False
+        v = ev.get("value", {})
+        return v.get("step_name") == step_name and _tick_uid(v.get("input_event")) == uid_in
+    except Exception:  # noqa: BLE001
+        return False
+
+
 def unpersisted_outputs(ticks):
-    """outputs (event uids) of persisted step_result ticks that have no persisted add_event"""
-    added = set()
-    produced = []
-    for t in ticks:
-        if t.get("type") == "add_event":
-            added.add(_tick_uid(t.get("event")))
-        elif t.get("type") == "step_result":
-            for r in t.get("result", []):
-                if r.get("type") == "result" or "result" in r:
-                    ev = r.get("result")
-                    if ev:
-                        produced.append(_tick_uid(ev))
-    return [u for u in produced if u is not None and u not in added]
+    """consequences of persisted step_result ticks that are not persisted themselves: an output event without its add_event,
+    or a failure without its follow-up (retry add_event / StepFailedEvent for the handler)"""
+    missing = []
+    for i, t in enumerate(ticks):
+        if t.get("type") != "step_result":
+            continue
+        later = ticks[i + 1:]
+        uid_in = _tick_uid(t.get("event"))
+        for r in t.get("result", []):
+            if r.get("type") == "result":
+                ev = r.get("result")
+                if ev:
+                    u = _tick_uid(ev)
+                    if u is not None and not any(x.get("type") == "add_event" and _tick_uid(x.get("event")) == u for x in later):
+                        missing.append(("output", u))
+            elif r.get("type") == "failed":
+                follow = any(
+                    x.get("type") == "add_event" and (
+                        (x.get("step_name") == t.get("step_name") and _tick_uid(x.get("event")) == uid_in and (x.get("attempts") or 0) > 0)
+                        or _is_step_failed_for(x.get("event"), t.get("step_name"), uid_in))
+                    for x in later)
+                if not follow:
+                    missing.append(("failure_followup", uid_in))
+    return missing
 
 
 def has_terminal(ticks):
@@ -162,9 +183,9 @@ def check_point(case, k, ref, out, acc):
             acc.violation({"mech": "resumed_result_differs"}, f"crash after tick {k}: result {hres['result']} != uninterrupted {ref['h']['result']}", wit)
         return
     if hres["status"] == "running":
-        acc.violation({"mech": "resumed_handler_never_finishes", "unpersisted_step_output_at_crash": bool(missing), "crash_after": last},
+        acc.violation({"mech": "resumed_handler_never_finishes", "unpersisted_step_consequence_at_crash": bool(missing), "crash_after": last},
                       f"crash after persisted tick {k} ({last}): handler still running 300 virtual s after the restart (idle={hres['idle']}); "
-                      f"outputs of persisted step results without a persisted add_event: {missing}", wit)
+                      f"consequences of persisted step results that were not persisted (output add_event / retry / handler hand-off): {missing}", wit)
     else:
         acc.violation({"mech": "resumed_handler_wrong_status", "status": hres["status"]},
                       f"crash after persisted tick {k} ({last}): handler ended as {hres}", wit)
